@@ -51,9 +51,23 @@ def main():
             if hasattr(mod, "gen"):
                 mod.gen(ctx)
             ctx.prove(mod.PROPS_MODULE, getattr(mod, "EXTRA_TARGETS", ()))
-            mod.correspond(ctx)
+            try:
+                mod.correspond(ctx)
+            except Infra:
+                raise
+            except Exception as e:  # noqa
+                # the harness could not digest what the implementation did (e.g. a NaN where a number is required, a
+                # missing attribute): the correspondence is BROKEN, which is a verdict (after the failing-input search),
+                # not an infrastructure failure
+                ctx.broken(f"correspondence: the harness raised {type(e).__name__} while comparing model and implementation",
+                           traceback.format_exc())
             if ctx.needs_search() and hasattr(mod, "search"):
-                mod.search(ctx)
+                try:
+                    mod.search(ctx)
+                except Infra:
+                    raise
+                except Exception as e:  # noqa
+                    ctx.broken(f"search: the failing-input search raised {type(e).__name__}", traceback.format_exc())
             if not ctx.quick and getattr(mod, "LEANCHECK", True):
                 ctx.leanchecker([mod.PROPS_MODULE])
         code = ctx.finish()
